@@ -171,6 +171,13 @@ func (s *DeleteStmt) Validate(ctx *CheckCtx) error {
 }
 
 func (s *SelectStmt) ValidateFields(ctx *CheckCtx) error {
+	// A field that is just the name of another field (int(value) as n, n as m)
+	// refers to that field like any other use of the name
+	for i, f := range s.Fields {
+		if ref, ok := tryRewriteNameExpr(f, ctx).(*FieldReferenceExpr); ok && ref.FieldExpr != f {
+			s.Fields[i] = ref
+		}
+	}
 	for _, f := range s.Fields {
 		if err := s.validateField(f, ctx); err != nil {
 			return err
